@@ -675,5 +675,5 @@ var _ = kit.Register(kit.Prop[Case]{
 		"plus one further valid block head and state equal those of a node that never crashed; some restarted nodes continue the schedule instead. " +
 		"Non-trivial: a crash point strictly between a block's body write and its head marker was evaluated",
 	Gen: func(t *rapid.T) Case { return genCase(t, true) }, Run: runCase,
-	Quick: 35, Thorough: 450, Chunk: 5, MinNonTrivialPct: 45,
+	Quick: 28, Thorough: 450, Chunk: 4, MinNonTrivialPct: 45,
 })
